@@ -18,7 +18,7 @@ def jobs_for(tier: str, rng: random.Random, *, extreme=False, watch=False, names
                 continue
             bounds, prec, rem = sh.random_space(rng, max_dims=3 if name == "CORSSampler" else 6, heavy=heavy)
             jobs.append({"name": name, "bounds": bounds, "prec": prec, "rem": rem, "bs": rng.randint(1, 2 if heavy else 4),
-                         "seed": rng.randrange(2**31), "ncalls": 3 if not heavy else 2, "rseed": rng.randrange(2**31),
+                         "seed": rng.randrange(2**31), "ncalls": 4 if not heavy else 3, "rseed": rng.randrange(2**31),
                          "extreme": extreme, "watch": watch})
     return jobs
 
